@@ -4,11 +4,18 @@ TLC (design level): exhaustive check of the pipeline model — parallel fetchers
 streams, stream reset, revert task, catch-up / tip mode, a source that extends / reorgs at any moment and
 answers late, wrongly or not at all within a fault budget — for the safety properties and for convergence
 under per-action weak fairness; once with the known design defects repaired (must hold) and once per
-defect as coded (must fail: the counterexample is what the recorder reproduces on the real code).
+defect as coded (must fail: the counterexample is what the recorder reproduces on the real code).  The property
+"every stored block passed full verification" is also stated over the CONTENT of the database (StoredOnlyVerified:
+no block was ever stored with content other than the source's); the two mechanisms that keep a faulty answer out of
+the database — the state-root checks of Store also for blocks without diff entries, a verdict that belongs to the
+answer it was computed on and not to the hash the answer claims — have a switch each, and TLC must find the
+invariant violated with either switched off (Sync_x_emptyroot.cfg, Sync_x_memo.cfg).
 
 Binding: TRACE VALIDATION of the real sync.Synchronizer over a real Blockchain with a gated scripted
 DataSource (harness/engines/sync).  Every recorded run is (a) judged by the property monitors in the
-engine and (b) validated by TLC against SyncTrace.tla (observable actions with their guards, internal
+engine — among them an independent re-verification of every stored block, read back from the database on the
+storing goroutine: recomputed hash and commitments, content equal to the source's block, state tries re-hashed to
+the honest state root — and (b) validated by TLC against SyncTrace.tla (observable actions with their guards, internal
 pipeline steps silent).  Both verdicts must agree; a disagreement is a broken check, not a verdict.
 """
 import json
@@ -149,6 +156,11 @@ def forged_scripts():
                 "mode": "script", "new_state": new_state, "init_len": L, "plan": [], "shapes": {str(h + 1): shape},
                 "decisions": [{"op": "sync", "below": h, "len": h, "reqs": [h]}] + [
                     {"op": "resp", "kind": "block", "h": h, "r": "fg", "ver": 1, "corr": k} for k in FORGERIES]})
+    for j, new_state in enumerate((False, True)):          # the genesis block itself (no predecessor, old root zero)
+        out.append({"name": "forged-genesis-%s" % ("new" if new_state else "legacy"), "seed": 40 + j, "mode": "script",
+                    "new_state": new_state, "init_len": 4, "plan": [],
+                    "decisions": [{"op": "sync", "below": 0, "len": 0, "reqs": [0]}] + [
+                        {"op": "resp", "kind": "block", "h": 0, "r": "fg", "ver": 1, "corr": k} for k in FORGERIES]})
     return out
 
 
@@ -442,25 +454,27 @@ def run(ctx):
     if design:
         # the three quick configurations are independent: run them side by side
         from concurrent.futures import ThreadPoolExecutor
-        with ThreadPoolExecutor(max_workers=5) as pool:
+        with ThreadPoolExecutor(max_workers=3) as pool:
             f1 = pool.submit(ctx.tlc_check, "sync", "MCSync.tla", "Sync_quick.cfg", timeout=900,
                              label="repaired: safety+liveness (chain<=3)")
             f2 = pool.submit(ctx.tlc_check, "sync", "MCSync.tla", "Sync_restart.cfg", timeout=900,
                              label="repaired, one stop/restart of the node: safety+liveness+RestartIsNoOp")
-            f3 = pool.submit(ctx.tlc_check, "sync", "MCSync.tla", "Sync_h13.cfg", timeout=900, expect_violation=True,
-                             label="as coded (H13): RevertsJustified must fail")
-            # self-tests of StoredOnlyVerified ("what the database holds is the source's block"): with one of the
-            # two mechanisms between a faulty answer and the database switched off, TLC must find a forged /
-            # altered block in the database (the histories the directed scenarios below reproduce on the code)
-            f4 = pool.submit(ctx.tlc_check, "sync", "MCSync.tla", "Sync_x_emptyroot.cfg", timeout=900, expect_violation=True,
-                             label="root checks skipped for blocks without diff entries: StoredOnlyVerified must fail")
-            f5 = pool.submit(ctx.tlc_check, "sync", "MCSync.tla", "Sync_x_memo.cfg", timeout=900, expect_violation=True,
-                             label="verdict remembered by claimed hash: StoredOnlyVerified must fail")
+            def expected_violations():           # three short runs, one after the other on the third lane
+                r3 = ctx.tlc_check("sync", "MCSync.tla", "Sync_h13.cfg", timeout=900, expect_violation=True,
+                                   label="as coded (H13): RevertsJustified must fail")
+                # self-tests of StoredOnlyVerified ("what the database holds is the source's block"): with one of
+                # the two mechanisms between a faulty answer and the database switched off, TLC must find a forged /
+                # altered block in the database (the histories the directed scenarios reproduce on the code)
+                r4 = ctx.tlc_check("sync", "MCSync.tla", "Sync_x_emptyroot.cfg", timeout=900, expect_violation=True,
+                                   label="root checks skipped for blocks without diff entries: StoredOnlyVerified must fail")
+                r5 = ctx.tlc_check("sync", "MCSync.tla", "Sync_x_memo.cfg", timeout=900, expect_violation=True,
+                                   label="verdict remembered by claimed hash: StoredOnlyVerified must fail")
+                return r3, r4, r5
+            f3 = pool.submit(expected_violations)
             f1.result()
             f2.result()
-            r = f3.result()
-            for f, what in ((f4, "root checks skipped on empty diffs"), (f5, "verdict remembered by claimed hash")):
-                rx = f.result()
+            r, r4, r5 = f3.result()
+            for rx, what in ((r4, "root checks skipped on empty diffs"), (r5, "verdict remembered by claimed hash")):
                 if rx["violated"] != "StoredOnlyVerified":
                     raise vlib.Broken("the model with %s does not violate StoredOnlyVerified (got %s)" % (what, rx["violated"]))
         if r["violated"] != "RevertsJustified":
